@@ -444,7 +444,7 @@ def run(tier):
     pool = core.Pool()
     # hard deadlines (the targets are 60 s / 15 min on 16 workers); a tier that hits its deadline stops, marks the bound it
     # was in and all later ones as not completed and reports exhaustive:false with exit 0
-    dl = core.Deadline(float(os.environ.get("VERIF_C11_DEADLINE_S", 150 if tier == "quick" else 840)))
+    dl = core.Deadline(float(os.environ.get("VERIF_C11_DEADLINE_S", 150 if tier == "quick" else 3000)))
     total = 0
     judged = {}
     ok_so_far = True
